@@ -1,10 +1,580 @@
-//! Case kinds of group `safety` (facade-level, K1-K5). `run` returns None for case kinds it does
+//! Case kinds of group `safety` (C14, C15). `run` returns None for case kinds it does
 //! not know. Owned by the `safety` group; other files need not change when kinds are added here.
+//!
+//! K2 (validators and renaming functions through the facade; a panic is caught by main.rs
+//! and printed as PANIC):
+//!   v_dom|v_svc|v_host <hex>            -> OK | ERR
+//!   v_len <hex> <limit>                 -> OK | ERR
+//!   v_inst <hex>                        -> OK 0|1
+//!   v_nc|v_hc|v_esc|v_norm <hex>        -> OK <hex>
+//!   v_sub <hex>                         -> OK <hex ty_domain> <hex sub_domain|~>
+//!   v_lab <hex>                         -> OK <fit 0|1> <label hex,...|->
+//!   v_new <hex ty> <hex name> <hex host>-> OK <ty> <sub|~> <fullname> <server> | ERR
+//! K6/K7:
+//!   simh <history json>                 -> the JSON result line of `sim::run_history`
+//!   c14 <steps>                         -> command-queue / shutdown histories (see `c14`)
+//!   stress_shutdown <threads> <calls> <seed> -> real client threads against a shutting-down daemon
 #[allow(unused_imports)]
 use crate::util::*;
 #[allow(unused_imports)]
 use mdns_sd::verif_hooks as vh;
+use mdns_sd::{DaemonStatus, HostnameResolutionEvent, ServiceDaemon, ServiceEvent, ServiceInfo, UnregisterStatus};
+use std::net::{IpAddr, Ipv4Addr};
+use std::sync::atomic::{AtomicBool, AtomicU16, Ordering};
+use std::sync::Arc;
+use std::time::Duration;
 
-pub fn run(_t: &[&str]) -> Option<String> {
-    None
+fn okerr<T>(r: Result<T, String>) -> String {
+    match r {
+        Ok(_) => "OK".into(),
+        Err(_) => "ERR".into(),
+    }
+}
+
+pub fn run(t: &[&str]) -> Option<String> {
+    let s1 = || t.get(1).and_then(|x| unhex_str(x));
+    Some(match t[0] {
+        "v_dom" => match s1() {
+            Some(s) => okerr(vh::check_domain_suffix(&s)),
+            None => "SKIP".into(),
+        },
+        "v_svc" => match s1() {
+            Some(s) => okerr(vh::check_service_name(&s)),
+            None => "SKIP".into(),
+        },
+        "v_host" => match s1() {
+            Some(s) => okerr(vh::check_hostname(&s)),
+            None => "SKIP".into(),
+        },
+        "v_len" => match (s1(), t.get(2).and_then(|x| x.parse::<u8>().ok())) {
+            (Some(s), Some(l)) => okerr(vh::check_service_name_length(&s, l)),
+            _ => "SKIP".into(),
+        },
+        "v_inst" => match s1() {
+            Some(s) => format!("OK {}", if vh::valid_instance_name(&s) { 1 } else { 0 }),
+            None => "SKIP".into(),
+        },
+        "v_nc" => match s1() {
+            Some(s) => format!("OK {}", hex(vh::name_change(&s).as_bytes())),
+            None => "SKIP".into(),
+        },
+        "v_hc" => match s1() {
+            Some(s) => format!("OK {}", hex(vh::hostname_change(&s).as_bytes())),
+            None => "SKIP".into(),
+        },
+        "v_esc" => match s1() {
+            Some(s) => format!("OK {}", hex(vh::escape_instance_name(&s).as_bytes())),
+            None => "SKIP".into(),
+        },
+        "v_norm" => match s1() {
+            Some(s) => format!("OK {}", hex(vh::normalize_hostname(s).as_bytes())),
+            None => "SKIP".into(),
+        },
+        "v_sub" => match s1() {
+            Some(s) => {
+                let (a, b) = vh::split_sub_domain(&s);
+                format!("OK {} {}", hex(a.as_bytes()), b.map(|x| hex(x.as_bytes())).unwrap_or_else(|| "~".into()))
+            }
+            None => "SKIP".into(),
+        },
+        "v_lab" => match s1() {
+            Some(s) => {
+                // exactly what write_name / name_labels_fit do before splitting
+                let n = s.strip_suffix('.').unwrap_or(&s);
+                let labels = vh::parse_escaped_name(n);
+                let fit = labels.iter().all(|l| l.len() < 64);
+                let ls: Vec<String> = labels.iter().map(|l| hex(l.as_bytes())).collect();
+                format!("OK {} {}", if fit { 1 } else { 0 }, if ls.is_empty() { "-".to_string() } else { ls.join(",") })
+            }
+            None => "SKIP".into(),
+        },
+        "v_new" => {
+            let (Some(ty), Some(name), Some(host)) = (
+                t.get(1).and_then(|x| unhex_str(x)),
+                t.get(2).and_then(|x| unhex_str(x)),
+                t.get(3).and_then(|x| unhex_str(x)),
+            ) else {
+                return Some("SKIP".into());
+            };
+            match ServiceInfo::new(&ty, &name, &host, "192.168.1.10", 80, None::<std::collections::HashMap<String, String>>) {
+                Ok(i) => format!(
+                    "OK {} {} {} {}",
+                    hex(i.get_type().as_bytes()),
+                    i.get_subtype().as_ref().map(|x| hex(x.as_bytes())).unwrap_or_else(|| "~".into()),
+                    hex(i.get_fullname().as_bytes()),
+                    hex(i.get_hostname().as_bytes())
+                ),
+                Err(_) => "ERR".into(),
+            }
+        }
+        "simh" => crate::sim::run_history(&t[1..].join(" ")),
+        "c14" => c14(t.get(1).copied().unwrap_or("")),
+        "stress_shutdown" => stress_shutdown(
+            t.get(1).and_then(|x| x.parse().ok()).unwrap_or(4),
+            t.get(2).and_then(|x| x.parse().ok()).unwrap_or(50),
+            t.get(3).and_then(|x| x.parse().ok()).unwrap_or(1),
+        ),
+        _ => return None,
+    })
+}
+
+// =========================================================================================
+// C14: command queue and shutdown, on the real daemon thread in the simulated world.
+//
+// Case:  c14 <step>/<step>/...      step = <dt>:<call>,<call>,...   (calls may be empty)
+// Before each step the virtual clock advances by dt ms; the calls are issued through the
+// public API (daemon held at the gate), then the daemon runs ONE loop iteration (if it is
+// still alive), then every reply/event channel is drained.
+// Calls (arguments hex-encoded UTF-8):
+//   B<ty> browse, C<ty> browse_cache, b<ty> stop_browse, H<host> resolve_hostname,
+//   h<host> stop_resolve_hostname, R<ty>:<name>:<host> register (ip 192.168.1.10, port 80),
+//   U<fullname> unregister, M monitor, S status, G get_metrics, X shutdown,
+//   L<n> set_service_name_len_max, I<n> set_ip_check_interval, V<name> verify (timeout 1 s),
+//   A<0|1> accept_unsolicited
+// and, in the same list, network input delivered before the iteration (not a call, owns no
+// channel):  P<ty>*<n>  = one response datagram with n PTR answers announcing n new instances
+// of type <ty>.
+// The k-th call of the history (0-based over all steps) owns channel k.
+// Result: one record per step, joined by " / ":
+//   r=<result>,..|ev=<ch>:<ev>.<ev>;..|gb=<hex name>,..|x=<0|1 daemon thread ended in this step>[|dead=panicked|stuck]
+// results: Ok | Msg | Again | DaemonShutdown | Other | PANIC
+// events (C14-relevant projection): Started (first SearchStarted of a channel only), Stopped,
+//   Found (ServiceFound), Timeout, Running, Shutdown, UnregOK, UnregNotFound, Metrics, closed
+// gb (only in the step in which the daemon thread ended): owner names (lower-cased) of SRV records with TTL 0 (read back as 1 by the crate's decoder) sent in the step, sorted.
+// =========================================================================================
+
+enum Ch {
+    Svc(flume::Receiver<ServiceEvent>, bool),
+    Host(flume::Receiver<HostnameResolutionEvent>, bool),
+    Mon(flume::Receiver<mdns_sd::DaemonEvent>),
+    Unreg(flume::Receiver<UnregisterStatus>),
+    Status(flume::Receiver<DaemonStatus>),
+    Metrics(flume::Receiver<mdns_sd::Metrics>),
+}
+
+fn err_kind(e: &mdns_sd::Error) -> &'static str {
+    match e {
+        mdns_sd::Error::Again => "Again",
+        mdns_sd::Error::DaemonShutdown => "DaemonShutdown",
+        mdns_sd::Error::Msg(_) => "Msg",
+        _ => "Other",
+    }
+}
+
+static NEXT_PORT: AtomicU16 = AtomicU16::new(0);
+
+fn fresh_port() -> u16 {
+    // distinct per history inside one process; processes are distinguished by pid
+    let k = NEXT_PORT.fetch_add(1, Ordering::SeqCst);
+    10000 + ((std::process::id() as u16).wrapping_mul(97).wrapping_add(k)) % 50000
+}
+
+fn sim_iface() -> if_addrs::Interface {
+    if_addrs::Interface {
+        name: "eth0".into(),
+        addr: if_addrs::IfAddr::V4(if_addrs::Ifv4Addr {
+            ip: Ipv4Addr::new(192, 168, 1, 10),
+            netmask: Ipv4Addr::new(255, 255, 255, 0),
+            prefixlen: 24,
+            broadcast: None,
+        }),
+        index: Some(2),
+        oper_status: if_addrs::IfOperStatus::Up,
+        is_p2p: false,
+    }
+}
+
+fn do_call(d: &ServiceDaemon, c: &str, chans: &mut Vec<(usize, Ch, bool)>, idx: usize) -> String {
+    let (op, arg) = c.split_at(1);
+    let s = |x: &str| unhex_str(x).unwrap_or_default();
+    macro_rules! reg {
+        ($r:expr, $mk:expr) => {
+            match $r {
+                Ok(rx) => {
+                    chans.push((idx, ($mk)(rx), false));
+                    "Ok".to_string()
+                }
+                Err(e) => err_kind(&e).to_string(),
+            }
+        };
+    }
+    macro_rules! unit {
+        ($r:expr) => {
+            match $r {
+                Ok(_) => "Ok".to_string(),
+                Err(e) => err_kind(&e).to_string(),
+            }
+        };
+    }
+    let r = std::panic::catch_unwind(std::panic::AssertUnwindSafe(|| match op {
+        "B" => reg!(d.browse(&s(arg)), |rx| Ch::Svc(rx, false)),
+        "C" => reg!(d.browse_cache(&s(arg)), |rx| Ch::Svc(rx, false)),
+        "b" => unit!(d.stop_browse(&s(arg))),
+        "H" => reg!(d.resolve_hostname(&s(arg), None), |rx| Ch::Host(rx, false)),
+        "h" => unit!(d.stop_resolve_hostname(&s(arg))),
+        "R" => {
+            let p: Vec<&str> = arg.split(':').collect();
+            if p.len() != 3 {
+                return "BadCall".to_string();
+            }
+            match ServiceInfo::new(&s(p[0]), &s(p[1]), &s(p[2]), "192.168.1.10", 80, None::<std::collections::HashMap<String, String>>) {
+                Ok(info) => unit!(d.register(info)),
+                Err(e) => err_kind(&e).to_string(),
+            }
+        }
+        "U" => reg!(d.unregister(&s(arg)), Ch::Unreg),
+        "M" => reg!(d.monitor(), Ch::Mon),
+        "S" => reg!(d.status(), Ch::Status),
+        "G" => reg!(d.get_metrics(), Ch::Metrics),
+        "X" => reg!(d.shutdown(), Ch::Status),
+        "L" => unit!(d.set_service_name_len_max(arg.parse::<u8>().unwrap_or(15))),
+        "I" => unit!(d.set_ip_check_interval(arg.parse::<u32>().unwrap_or(5))),
+        "V" => unit!(d.verify(s(arg), Duration::from_millis(1000))),
+        "A" => unit!(d.accept_unsolicited(arg == "1")),
+        _ => "BadCall".to_string(),
+    }));
+    r.unwrap_or_else(|_| "PANIC".to_string())
+}
+
+/// `snapshot`: read only what is in each channel right now (used when the daemon thread is
+/// blocked in a `send`: reading frees a slot, and what the blocked sender then adds is not part
+/// of the observation).
+fn drain(chans: &mut Vec<(usize, Ch, bool)>, snapshot: bool) -> Vec<String> {
+    let mut out = Vec::new();
+    for (idx, ch, closed) in chans.iter_mut() {
+        let mut evs: Vec<&'static str> = Vec::new();
+        macro_rules! pump {
+            ($rx:expr, $f:expr) => {
+                let mut left = if snapshot { $rx.len() } else { usize::MAX };
+                loop {
+                    if left == 0 {
+                        break;
+                    }
+                    left -= 1;
+                    match $rx.try_recv() {
+                        Ok(e) => {
+                            if let Some(x) = $f(e) {
+                                evs.push(x)
+                            }
+                        }
+                        Err(flume::TryRecvError::Empty) => break,
+                        Err(flume::TryRecvError::Disconnected) => {
+                            if !*closed {
+                                *closed = true;
+                                evs.push("closed");
+                            }
+                            break;
+                        }
+                    }
+                }
+            };
+        }
+        match ch {
+            Ch::Svc(rx, started) => pump!(rx, |e: ServiceEvent| match e {
+                ServiceEvent::SearchStarted(_) => {
+                    if *started {
+                        None
+                    } else {
+                        *started = true;
+                        Some("Started")
+                    }
+                }
+                ServiceEvent::SearchStopped(_) => Some("Stopped"),
+                ServiceEvent::ServiceFound(_, _) => Some("Found"),
+                _ => None,
+            }),
+            Ch::Host(rx, started) => pump!(rx, |e: HostnameResolutionEvent| match e {
+                HostnameResolutionEvent::SearchStarted(_) => {
+                    if *started {
+                        None
+                    } else {
+                        *started = true;
+                        Some("Started")
+                    }
+                }
+                HostnameResolutionEvent::SearchStopped(_) => Some("Stopped"),
+                HostnameResolutionEvent::SearchTimeout(_) => Some("Timeout"),
+                _ => None,
+            }),
+            Ch::Mon(rx) => pump!(rx, |_e: mdns_sd::DaemonEvent| None),
+            Ch::Unreg(rx) => pump!(rx, |e: UnregisterStatus| Some(match e {
+                UnregisterStatus::OK => "UnregOK",
+                UnregisterStatus::NotFound => "UnregNotFound",
+            })),
+            Ch::Status(rx) => pump!(rx, |e: DaemonStatus| Some(match e {
+                DaemonStatus::Running => "Running",
+                DaemonStatus::Shutdown => "Shutdown",
+                _ => "OtherStatus",
+            })),
+            Ch::Metrics(rx) => pump!(rx, |_e: mdns_sd::Metrics| Some("Metrics")),
+        }
+        if !evs.is_empty() {
+            out.push(format!("{}:{}", idx, evs.join(".")));
+        }
+    }
+    out
+}
+
+fn goodbyes(sim: &vh::SimDaemon) -> Vec<String> {
+    let mut v = Vec::new();
+    for e in sim.take_egress() {
+        if let Ok(m) = vh::decode(e.data.clone(), 2) {
+            for a in m.answers.iter() {
+                if a.ty == 33 && a.ttl <= 1 {
+                    v.push(hex(a.name.to_lowercase().as_bytes()));
+                }
+            }
+        }
+    }
+    v.sort();
+    v
+}
+
+const WALL_MS: u64 = 20000;
+/// wall-clock wait for one iteration of a c14 history before the daemon thread counts as stuck
+const C14_WALL_MS: u64 = 8000;
+
+/// A response with `n` PTR answers `<ty> PTR p<tag>x<j>.<ty>` (uncompressed).
+fn ptr_announcement(ty: &str, n: usize, tag: usize) -> Vec<u8> {
+    fn name(out: &mut Vec<u8>, first: Option<&str>, ty: &str) {
+        if let Some(f) = first {
+            out.push(f.len() as u8);
+            out.extend(f.as_bytes());
+        }
+        for l in ty.split('.').filter(|l| !l.is_empty()) {
+            out.push(l.len().min(63) as u8);
+            out.extend(&l.as_bytes()[..l.len().min(63)]);
+        }
+        out.push(0);
+    }
+    let mut p = vec![0, 0, 0x84, 0, 0, 0, (n >> 8) as u8, n as u8, 0, 0, 0, 0];
+    for j in 0..n {
+        name(&mut p, None, ty);
+        p.extend([0, 12, 0, 1, 0, 0, 0x11, 0x94]); // PTR IN ttl 4500
+        let mut rd = Vec::new();
+        name(&mut rd, Some(&format!("p{tag}x{j}")), ty);
+        p.extend([(rd.len() >> 8) as u8, rd.len() as u8]);
+        p.extend(rd);
+    }
+    p
+}
+
+fn c14(spec: &str) -> String {
+    let port = fresh_port();
+    vh::set_virtual_now(Some(1_000_000));
+    let sim = vh::sim_register(port, vec![sim_iface()], 1);
+    let daemon = match ServiceDaemon::new_with_port(port) {
+        Ok(d) => d,
+        Err(_) => return "NODAEMON".into(),
+    };
+    let mut alive = sim.wait_at_gate(WALL_MS).map(|r| !r.exited).unwrap_or(false);
+    let mut chans: Vec<(usize, Ch, bool)> = Vec::new();
+    let mut idx = 0usize;
+    let mut recs: Vec<String> = Vec::new();
+    let mut now = 1_000_000u64;
+    let mut was_stuck = false;
+    for st in spec.split('/') {
+        let (dt, calls) = st.split_once(':').unwrap_or((st, ""));
+        now += dt.parse::<u64>().unwrap_or(0);
+        vh::set_virtual_now(Some(now));
+        let mut rs = Vec::new();
+        for c in calls.split(',').filter(|c| !c.is_empty()) {
+            if let Some(arg) = c.strip_prefix('P') {
+                let (ty, n) = arg.split_once('*').unwrap_or((arg, "1"));
+                let data = ptr_announcement(&unhex_str(ty).unwrap_or_default(), n.parse().unwrap_or(1), recs.len());
+                sim.inject(vh::Ingress { is_ipv4: true, if_index: 2, src: "192.168.1.99:5353".parse().unwrap(), data });
+                continue;
+            }
+            rs.push(do_call(&daemon, c, &mut chans, idx));
+            idx += 1;
+        }
+        let mut exited = false;
+        let mut dead = "";
+        if alive {
+            sim.release();
+            match sim.wait_at_gate(C14_WALL_MS) {
+                None => {
+                    alive = false;
+                    dead = "|dead=stuck";
+                }
+                Some(r) => {
+                    if r.exited {
+                        alive = false;
+                        exited = true;
+                        if r.panicked {
+                            dead = "|dead=panicked";
+                        }
+                    }
+                }
+            }
+        }
+        // goodbyes are part of the observation only in the step in which the daemon ends
+        let gb = if exited { goodbyes(&sim) } else { let _ = sim.take_egress(); Vec::new() };
+        // a client blocked behind a stuck daemon reads nothing any more
+        let ev = if dead == "|dead=stuck" {
+            was_stuck = true;
+            drain(&mut chans, true)
+        } else if was_stuck {
+            Vec::new()
+        } else {
+            drain(&mut chans, false)
+        };
+        recs.push(format!(
+            "r={}|ev={}|gb={}|x={}{}",
+            if rs.is_empty() { "-".to_string() } else { rs.join(",") },
+            if ev.is_empty() { "-".to_string() } else { ev.join(";") },
+            if gb.is_empty() { "-".to_string() } else { gb.join(",") },
+            if exited { 1 } else { 0 },
+            dead
+        ));
+    }
+    if alive {
+        let _ = daemon.shutdown();
+        sim.release();
+        let _ = sim.wait_at_gate(WALL_MS);
+    } else if was_stuck {
+        // free the blocked thread: without receivers its sends fail instead of blocking
+        drop(chans);
+        let _ = daemon.shutdown();
+        sim.release();
+        sim.release();
+        let _ = sim.wait_at_gate(2000);
+    }
+    vh::sim_unregister(port);
+    recs.join(" / ")
+}
+
+// =========================================================================================
+// Real-thread stress (search support for C14, outside the model): a daemon in the simulated
+// world is released continuously by a helper thread while client threads issue calls on
+// clones of the handle and one of them shuts the daemon down.  Every call must return and
+// every reply receiver must yield or close within a wall-clock timeout.
+// Result: OK calls=<n> after_shutdown_ok=<n>  |  FAIL <what>
+// =========================================================================================
+fn stress_shutdown(n_threads: usize, n_calls: usize, seed: u64) -> String {
+    let port = fresh_port();
+    vh::set_virtual_now(Some(1_000_000));
+    let sim = vh::sim_register(port, vec![sim_iface()], 1);
+    let daemon = match ServiceDaemon::new_with_port(port) {
+        Ok(d) => d,
+        Err(_) => return "NODAEMON".into(),
+    };
+    let _ = sim.wait_at_gate(WALL_MS);
+    let stop = Arc::new(AtomicBool::new(false));
+    let pump = {
+        let sim = sim.clone();
+        let stop = stop.clone();
+        std::thread::spawn(move || {
+            while !stop.load(Ordering::SeqCst) {
+                sim.release();
+                match sim.wait_at_gate(2000) {
+                    Some(r) if r.exited => break,
+                    _ => {}
+                }
+            }
+        })
+    };
+    let saw_shutdown = Arc::new(AtomicBool::new(false));
+    let mut hs = Vec::new();
+    for k in 0..n_threads {
+        let d = daemon.clone();
+        let saw = saw_shutdown.clone();
+        hs.push(std::thread::spawn(move || -> Result<(usize, usize), String> {
+            let mut rng = seed.wrapping_mul(6364136223846793005).wrapping_add(k as u64 * 1442695040888963407 + 1);
+            let mut next = || {
+                rng ^= rng << 13;
+                rng ^= rng >> 7;
+                rng ^= rng << 17;
+                rng
+            };
+            let mut n = 0usize;
+            let mut after_ok = 0usize;
+            let shut_at = if k == 0 { (next() as usize) % n_calls.max(1) } else { usize::MAX };
+            let wait = Duration::from_millis(3000);
+            for i in 0..n_calls {
+                let known_dead = saw.load(Ordering::SeqCst);
+                let which = if i == shut_at { 99 } else { next() % 7 };
+                // returns: Some(true) call Ok and resolved, Some(false) call Err, None = pending forever
+                macro_rules! oneshot {
+                    ($r:expr) => {
+                        match $r {
+                            Err(_) => Some(false),
+                            Ok(rx) => match rx.recv_timeout(wait) {
+                                Ok(_) => Some(true),
+                                Err(flume::RecvTimeoutError::Disconnected) => Some(true),
+                                Err(flume::RecvTimeoutError::Timeout) => None,
+                            },
+                        }
+                    };
+                }
+                let r: Option<bool> = match which {
+                    0 => oneshot!(d.browse("_x._tcp.local.")),
+                    1 => oneshot!(d.resolve_hostname("h.local.", None)),
+                    2 => oneshot!(d.get_metrics()),
+                    3 => oneshot!(d.unregister("i._x._tcp.local.")),
+                    4 => match d.status() {
+                        Err(_) => Some(false),
+                        Ok(rx) => match rx.recv_timeout(wait) {
+                            Ok(DaemonStatus::Shutdown) => {
+                                saw.store(true, Ordering::SeqCst);
+                                Some(false)
+                            }
+                            Ok(_) => Some(true),
+                            Err(flume::RecvTimeoutError::Disconnected) => Some(true),
+                            Err(flume::RecvTimeoutError::Timeout) => None,
+                        },
+                    },
+                    5 => match ServiceInfo::new("_x._tcp.local.", "i", "h.local.", IpAddr::V4(Ipv4Addr::new(192, 168, 1, 10)), 80, None::<std::collections::HashMap<String, String>>) {
+                        Ok(info) => Some(d.register(info).is_ok()),
+                        Err(_) => Some(false),
+                    },
+                    6 => Some(d.stop_browse("_x._tcp.local.").is_ok()),
+                    _ => match d.shutdown() {
+                        Err(_) => Some(false),
+                        Ok(rx) => match rx.recv_timeout(wait) {
+                            Ok(DaemonStatus::Shutdown) => {
+                                saw.store(true, Ordering::SeqCst);
+                                Some(false)
+                            }
+                            Ok(_) => Some(true),
+                            Err(flume::RecvTimeoutError::Disconnected) => Some(true),
+                            Err(flume::RecvTimeoutError::Timeout) => None,
+                        },
+                    },
+                };
+                n += 1;
+                match r {
+                    None => return Err(format!("pending-forever thread={k} call={i} kind={which}")),
+                    Some(true) if known_dead && which != 4 => after_ok += 1,
+                    _ => {}
+                }
+            }
+            Ok((n, after_ok))
+        }));
+    }
+    let mut total = 0;
+    let mut after = 0;
+    let mut fail: Option<String> = None;
+    for h in hs {
+        match h.join() {
+            Ok(Ok((n, a))) => {
+                total += n;
+                after += a;
+            }
+            Ok(Err(e)) => fail = Some(e),
+            Err(_) => fail = Some("client-thread-panicked".into()),
+        }
+    }
+    stop.store(true, Ordering::SeqCst);
+    if !sim.wait_at_gate(1).map(|r| r.exited).unwrap_or(false) {
+        let _ = daemon.shutdown();
+        sim.release();
+    }
+    let _ = pump.join();
+    vh::sim_unregister(port);
+    match fail {
+        Some(e) => format!("FAIL {e}"),
+        None if after > 0 => format!("FAIL call-succeeded-after-observed-shutdown n={after}"),
+        None => format!("OK calls={total}"),
+    }
 }
